@@ -161,6 +161,18 @@ def driver_path():
     return os.path.join(LEAN, ".lake", "build", "bin", "driver")
 
 
+def _import_closure(mod, seen):
+    """the modules of the project a module rests on (transitive `import ChfVerif.…`), itself included"""
+    if mod in seen:
+        return
+    path = os.path.join(LEAN, mod.replace(".", "/") + ".lean")
+    if not os.path.exists(path):
+        return
+    seen.add(mod)
+    for m in re.findall(r"^import (ChfVerif\.[\w.]+)", open(path).read(), flags=re.M):
+        _import_closure(m, seen)
+
+
 def theorems_of(module):
     """(qualified name) of every theorem declared in a Props module, by reading its source."""
     path = os.path.join(LEAN, module.replace(".", "/") + ".lean")
@@ -466,6 +478,21 @@ def main(argv):
             res.violation("driver-build", "the Lean model driver does not build", [build_log[-3000:]], False)
     if bad_tokens:
         lean_info.append("forbidden constructs: " + "; ".join(bad_tokens[:5]))
+    rechecked = None
+    if ok_build and a.tier == "thorough":
+        # independent re-check of the compiled modules (the property's theorems and everything of the project they rest on) by
+        # leanchecker, which replays every declaration through the kernel from the .olean files
+        mods = set()
+        for m in modules:
+            _import_closure(m, mods)
+        with Lock("lake"):
+            t1 = time.time()
+            rc_lc, so_lc, se_lc = run(["lake", "env", "leanchecker"] + sorted(mods), cwd=LEAN)
+        log("leanchecker %d modules rc=%d %.1fs" % (len(mods), rc_lc, time.time() - t1))
+        rechecked = (rc_lc == 0, len(mods))
+        if rc_lc != 0:
+            lean_info.append("leanchecker rejects the compiled modules: " + (so_lc + se_lc).decode(errors="replace")[-800:])
+            discharged = 0
     lean_ok = ok_build and discharged == obligations and not bad_tokens and obligations > 0
     if not lean_ok:
         log("LEAN NOT OK:", lean_info)
@@ -518,7 +545,8 @@ def main(argv):
         "discharged": discharged if lean_ok or not ok_build else discharged,
         "checker_cmd": "cd lean && lake build %s && lake env lean build/audit_%s.lean  (#print axioms)" % (
             " ".join(modules), pid),
-        "trusted_base": trusted + ["axioms used: " + ", ".join(sorted({x for v in axioms.values() for x in v}) or ["none"])],
+        "trusted_base": trusted + ["axioms used: " + ", ".join(sorted({x for v in axioms.values() for x in v}) or ["none"])] + (
+            ["leanchecker re-checked %d compiled modules: %s" % (rechecked[1], "accepted" if rechecked[0] else "REJECTED")] if rechecked else []),
         "theorems": {t: axioms.get(t) for t in thms},
         "evaluations": res.evaluations,
         "distinct_nontrivial": len(res.nontrivial),
